@@ -196,6 +196,16 @@ func (g *Gen) mutate(s string) string {
 	return string(b)
 }
 
+// longSyntax: digit runs long enough to cross the parser's accumulator switch-overs (19/20 and 38/39/40 digits), with
+// one well-formed or ill-formed separator / point / exponent construct placed after a chosen number of digits
+func (g *Gen) longSyntax() string {
+	n1 := []int{17, 18, 19, 20, 21, 22, 36, 37, 38, 39, 40, 41, 45}[g.r.Intn(13)]
+	n2 := g.r.Intn(25)
+	glue := []string{"_.", "._", "_e5", "e_5", "__", "_", "..", ".", "e5e5", "_.5", "._5", "e+_5", "e5_", "_e", ".e5", "e", "e+", "_E-3", "."}[g.r.Intn(19)]
+	sign := []string{"", "-", "+"}[g.r.Intn(3)]
+	return sign + g.digitsStr(n1) + glue + g.digitsStr(n2)
+}
+
 func genC05(g *Gen) {
 	g.setMode(0)
 	// (1) exhaustive syntax enumeration (share of the budget)
@@ -216,7 +226,11 @@ func genC05(g *Gen) {
 		"in", "infi", "infinit", "infinityy", "na", "nann", "", "+", "-", ".", "-.", "+.", "e", "e5", ".e5", "1e", "1e+", "1e-", "0", "-0", "+0", "0e0", "-0.000e-7000", "00", "0_0", "_0", "0_",
 		"1_.0", "1._0", "1_e5", "1e_5", "1e5_", "1.5_e1", "1__0", "1_0_0", "1e1_0", "1e+_1", "1.", ".5", "5.e3", "1..0", "1.0.0", "1e5e5", "1e5.0", "--1", "+-1", "1+1", "1e++1", " 1", "1 ", "0x10", "1,5", "١"}
 	for !g.w.full() {
-		switch g.r.Intn(12) {
+		switch g.r.Intn(14) {
+		case 13:
+			if g.r.Intn(8) == 0 {
+				g.parse("Parse", g.longLiteral())
+			}
 		case 0:
 			g.parseAllVias(specials[g.r.Intn(len(specials))], false)
 		case 1, 2, 3:
@@ -227,13 +241,11 @@ func genC05(g *Gen) {
 				g.parse("Parse", s)
 			}
 			g.setMode(0)
-		case 4:
-			if g.r.Intn(8) == 0 {
-				g.parse("Parse", g.longLiteral())
-			}
 		case 5, 6:
 			s := g.validLiteral()
 			g.parseAllVias(g.mutate(s), false)
+		case 4, 12:
+			g.parseAllVias(g.longSyntax(), false)
 		case 7:
 			b := make([]byte, g.r.Intn(12))
 			for i := range b {
